@@ -213,7 +213,10 @@ for (n, d, f, q) in [
     ("c06_all_time_high_step", "compute_all_time_high: equals the from-scratch running maximum (resumes from the stored value)", ["vecdb::EagerVec::{compute_all_time_high,compute_all_time_extreme}"], True),
     ("c06_cumulative_step", "compute_cumulative: equals the from-scratch prefix sum", ["vecdb::EagerVec::compute_cumulative"], True),
 ]:
-    reg(H(n, "vecdb", "C06", mem=24, timeout=1800, tier="quick" if q else "thorough", desc=d, bounds=C06B, functions=f,
+    # the two windowed aggregates do not complete on this box (sum: > 30 min, max: > 24 GB): extended tier
+    heavy = n in ("c06_sum_step", "c06_max_step")
+    reg(H(n, "vecdb", "C06", mem=40 if heavy else 10, timeout=3000 if heavy else 1200,
+          tier="quick" if q else ("extended" if heavy else "thorough"), desc=d, bounds=C06B, functions=f,
           stubs=[FMT, WCAP0], assumes=["max_from <= c (the caller's obligation in the statement)", "c <= source length"]))
 reg(H("c19_version_persist_step", "vecdb", "C19", mem=10, timeout=1500,
       desc="validate_computed_version_or_reset followed by write(): the presented combined version is recorded, marks the header modified exactly when it changed, resets exactly when it changed and results existed, is persisted by the next write, and a second call with the same version is a no-op",
@@ -315,7 +318,7 @@ reg(
       bounds=C15B + "; mapping as long as the source", functions=["vecdb::LazyDeltaVec::{bulk_try_fold,fold_range_at,collect_one_at}", "vecdb::DeltaSub"], stubs=[WCAP]),
     H("c15_delta_sub_empty_windows", "vecdb", "C15", mem=8, timeout=900,
       desc="same with empty windows allowed (start = h + 1)", bounds=C15B, functions=["vecdb::DeltaSub::count", "vecdb::LazyDeltaVec"], stubs=[WCAP]),
-    H("c15_agg_sparse_reads", "vecdb", "C15", mem=40, timeout=2400, tier="thorough",
+    H("c15_agg_sparse_reads", "vecdb", "C15", mem=40, timeout=2400, tier="extended",
       desc="LazyAggVec<Sparse> over a first-index mapping with 3 groups incl. empty groups: point reads and range folds equal 'last source value of the group, None for an empty group'",
       bounds=C15B + "; 3 groups", functions=["vecdb::LazyAggVec", "vecdb::Sparse::{try_fold,collect_one}"], stubs=[WCAP]),
     H("c17_meta_roundtrip_valid", "rawdb", "C17", mem=10, timeout=900, memsafe=True, also=("C01",),
